@@ -22,6 +22,16 @@ CHECKS = {
    technique="bounded exhaustive enumeration (all layout vectors with <= k deviations per PxF skeleton) of generated documents carrying their intended reading, executed on the real strict reader",
    text="Every document whose layout differs from the simplest one in at most k slots (k=2 quick; 3-4 thorough; 9 skeletons of 1-3 paragraphs x 1-3 fields; slots: comments, names incl. duplicates and odd characters, colon spacing, first/continuation lines, indents, separators, trivia, final newline) is generated together with its model and read by the strict reader; paragraphs, items, keys, get/get_all/contains_key and Paragraph::from_str are compared with the model; every k<=1 document with one junk line inserted at every position must be rejected. Complete for all k-way interactions of layout choices, which unit tests sample one at a time.",
    note="Model decisions in DESIGN §3 C03 (value = non-empty lines). Field names/values outside the menus are not explored."),
+ "C04": dict(
+   category="model_checking", design_ref="DESIGN.md §3 C04, §2.5",
+   technique="explicit-state breadth-first search over edit histories replayed on live rowan objects, list-of-pairs reference model, state cache on (full syntax tree, handle flags, model) plus no-cache cross-check pass",
+   text="From 28 initial states (parsed layouts with comments, duplicates, multi-line values, missing final newline, several paragraphs; paragraphs built from pairs; stand-alone paragraphs; Paragraph::from_str handles) every history of set/insert/remove/rename over 3 names x 3-4 values, through fresh and through early paragraph handles, is explored breadth-first to depth 2 (quick) / 4 (thorough); after every transition the live object must equal the Vec model, bytes outside the touched field must be unchanged (independent line scanner), early handles must see the edit, and the printed document must re-read to the model. Finds sequence- and layout-dependent defects no single-operation unit test reaches.",
+   note="State-cache soundness is argued in DESIGN §2.5 and cross-checked by an uncached pass; empty paragraphs are dropped in re-read comparisons; histories deeper than the bound and other names/values are not explored."),
+ "C05": dict(
+   category="model_checking", design_ref="DESIGN.md §3 C05, §2.5",
+   technique="explicit-state breadth-first search over paragraph add/insert/remove histories (interleaved with field edits) replayed on live objects against a Vec-of-paragraphs model",
+   text="From 24 initial documents (empty, 1-3 paragraphs, leading/middle/trailing comments attached or detached, 1-4 blank separators, trailing blank lines, no final newline, built documents with an empty paragraph) every history of add_paragraph, insert_paragraph(i) for every i in 0..=len+1, remove_paragraph(i) for every i in 0..=len (bare and 'then set a field through the returned handle') and three field edits per paragraph is explored to depth 3 (quick) / 5 (thorough); paragraphs() must equal the list model, other paragraphs' text and all comments outside a removed paragraph must be unchanged, and the printed document must re-read to the same non-empty paragraphs.",
+   note="Comment lines that the removed paragraph's own handle prints may disappear with it (DESIGN §3 C05); paragraphs without fields are invisible in text and dropped from re-read comparisons."),
  "C06": dict(
    category="model_checking", design_ref="DESIGN.md §3 C06",
    technique="stateless exhaustive exploration of both real readers over the full input trie (C01 spaces) plus all C03 documents; differential oracle",
